@@ -41,6 +41,9 @@ def generate(tier, seed):
             rng.shuffle(names)
         cases.append(dict(kind=kind, wav=wav, order=order, aps=aps, val=val, names=names, unit=rng.choice(UNITS), with_unc=rng.random() < 0.7,
                           columns=rng.choice(['standard', 'standard', 'reordered']), dist_kpc=rng.choice([2.5, 0.125, 7.75, 40.0]), stored=rng.choice(['incr', 'decr']), unit_wav=rng.choice(['micron', 'micron', 'cm', 'nm', 'Angstrom']), unit_freq=rng.choice(['Hz', 'Hz', 'GHz', 'THz']), memmap=rng.random() < 0.5, conv_wav=rng.choice([None, rng.dyadic(0.3, 50, 8)])))
+    for k, c in enumerate(cases):
+        if c['kind'] == 'cube' and k % 8 == 2:
+            c['ctor'] = 'wav'
     return cases
 
 
@@ -103,14 +106,21 @@ def impl(case):
                                      nu_err=[[float(x) for x in row] for row in ra.error.to(u2).value], wav_err=[[float(x) for x in row] for row in rb.error.to(u2).value])
         elif case['kind'] == 'cube':
             from sedfitter.sed import SEDCube
-            c = SEDCube()
-            c.names = np.array(case['names'])
-            c.distance = case.get('dist_kpc', 2.5) * u.kpc
-            c.wav = np.array(wav) * u.micron
-            c.apertures = None if case['aps'] is None else np.array(case['aps']) * u.au
-            c.val = np.array([[_ord(r, case['order']) for r in m] for m in case['val']]) * unit
-            if case['with_unc']:
-                c.unc = c.val * 0.125
+            val_ = np.array([[_ord(r, case['order']) for r in m] for m in case['val']]) * unit
+            if case.get('ctor'):        # everything handed to the constructor (wavelengths or frequencies)
+                spec = dict(wav=np.array(wav) * u.micron) if case['ctor'] == 'wav' else dict(nu=(np.array(wav) * u.micron).to(u.Hz, equivalencies=u.spectral()))
+                c = SEDCube(names=np.array(case['names']), distance=case.get('dist_kpc', 2.5) * u.kpc,
+                            apertures=None if case['aps'] is None else np.array(case['aps']) * u.au,
+                            val=val_, unc=val_ * 0.125 if case['with_unc'] else None, **spec)
+            else:
+                c = SEDCube()
+                c.names = np.array(case['names'])
+                c.distance = case.get('dist_kpc', 2.5) * u.kpc
+                c.wav = np.array(wav) * u.micron
+                c.apertures = None if case['aps'] is None else np.array(case['aps']) * u.au
+                c.val = val_
+                if case['with_unc']:
+                    c.unc = c.val * 0.125
             # another cube with another distance / shape written first in the same process
             dec = SEDCube()
             dec.names = np.array(['decoy_a', 'decoy_b'])
